@@ -131,15 +131,16 @@ func (t *Transformer) maybeRecursivelyMangle(mangler Mangler, state *transformMa
 
 		ft := field.Type
 
-		// also don't recurse into TextUnarshaler types
-		if ft.Implements(textMReflectType) || reflect.PointerTo(ft).Implements(textMReflectType) {
-			continue
-		}
-
 		// strip any outer pointerification, slice or array
 		switch ft.Kind() {
 		case reflect.Ptr, reflect.Array, reflect.Slice:
 			ft = ft.Elem()
+		}
+
+		// also don't recurse into TextUnarshaler types (checked on the
+		// struct type itself, so []T and [N]T of such a T are left alone too)
+		if ft.Implements(textMReflectType) || reflect.PointerTo(ft).Implements(textMReflectType) {
+			continue
 		}
 
 		fieldTransformer := Transformer{
